@@ -21,6 +21,7 @@ inductive IR
   | scope (a : IR)                    -- body of a called function / production: its `return` ends only itself
   | tryRestore (rs : List Nat) (body : IR)   -- try: body / except: put back the fields `rs` as saved at entry; raise
   | tryFinally (body fin : IR)        -- try: body / finally: fin
+  | restore (rs : List Nat)           -- the fields `rs` are put back to the values saved at entry
   deriving Repr, DecidableEq
 
 abbrev Bound := Option (List Nat)
@@ -68,6 +69,7 @@ def run : IR → List Nat → Outs
     let o := run a H
     { norm := some H, rais := o.rais, ret := o.ret }
   | .ret, D => { ret := some D }
+  | .restore rs, D => { norm := some (D.filter (fun f => !rs.contains f)) }
   | .scope a, D => let o := run a D; { norm := o.norm.join o.ret, rais := o.rais }
   | .tryRestore rs body, D =>
     let o := run body D
@@ -88,5 +90,12 @@ def run : IR → List Nat → Outs
 def Disciplined (p : IR) : Prop := (run p []).rais = none ∨ (run p []).rais = some []
 
 instance (p : IR) : Decidable (Disciplined p) := by unfold Disciplined; infer_instance
+
+def Bound.clean (b : Bound) : Bool := b == none || b == some []
+
+/-- however the program ends — normally, by return or by an exception — no field differs from its entry value -/
+def Clean (p : IR) : Prop := (run p []).norm.clean = true ∧ (run p []).rais.clean = true ∧ (run p []).ret.clean = true
+
+instance (p : IR) : Decidable (Clean p) := by unfold Clean; infer_instance
 
 end CssVerif.SetterIR
